@@ -118,6 +118,7 @@ func runC18(c *Ctx) {
 	// ---- R12 one key function for the score/blacklist maps (writers and readers must agree)
 	{
 		n := 0
+		kinds := map[string]bool{} // distinct (function, access kind, map)
 		for _, fn := range p.Subjects() {
 			if !strings.HasPrefix(FuncKey(fn), "pkg/p2p.(*connectionGater).") || len(fn.Blocks) == 0 {
 				continue
@@ -129,6 +130,7 @@ func runC18(c *Ctx) {
 					return
 				}
 				n++
+				kinds[FuncKey(fn)+" "+what+" "+mt.Sym] = true
 				kt := tb.of(k, 0)
 				ok := kt.Op == "call" && kt.Sym == "(net.IP).String"
 				if !ok && (kt.Op == "extract" && kt.Args[0].Op == "next") {
@@ -151,7 +153,8 @@ func runC18(c *Ctx) {
 				}
 			}
 		}
-		c.MinInstances("C18.R12 one-key-function", n, 8)
+		c.Count("map accesses checked for the key function", n)
+		c.MinInstances("C18.R12 one-key-function", len(kinds), 7)
 	}
 
 	// ---- R9 accumulation, ban threshold, sweep
@@ -186,14 +189,43 @@ func runC18(c *Ctx) {
 				newScore = r.Results[0]
 			}
 		}
+		// the new score is the value computed as old + penalty (or the φ joining it with the
+		// fresh entry's), or the score field read back after that sum was stored into it
+		var accStores []*ssa.Store
+		for _, b := range blocksDeep(addPen) {
+			for _, in := range b.Instrs {
+				if st, ok := in.(*ssa.Store); ok {
+					if fa, ok := st.Addr.(*ssa.FieldAddr); ok {
+						o, s := ownerOfFieldBase(fa.X.Type())
+						if o == "p2p.peerInfo" && fieldNameOf(s.Field(fa.Field)) == "score" && strings.Contains(ff.Term(st.Val).String(), ".score + p2)") {
+							accStores = append(accStores, st)
+						}
+					}
+				}
+			}
+		}
+		isNewScore := Matcher{"new score", func(t *Term) bool {
+			if t.Op == "phi" || strings.Contains(t.String(), ".score + p2") {
+				return true
+			}
+			if ld, ok := t.V.(*ssa.UnOp); ok && t.Op == "field" && t.Sym == "score" && len(accStores) == 1 {
+				if fa, ok := ld.X.(*ssa.FieldAddr); ok {
+					return fa.X == accStores[0].Addr.(*ssa.FieldAddr).X && instrDominates(accStores[0], ld)
+				}
+			}
+			return false
+		}}
 		// expiry stores
 		nExp := 0
 		checkExpiry := func(site ssa.Instruction, val *Term, blk *ssa.BasicBlock) {
+			if val.String() == "-1" {
+				return // a fresh entry without expiry
+			}
 			nExp++
 			future := strings.Contains(val.String(), "time.Now") && strings.Contains(val.String(), "+") && strings.Contains(val.String(), ".expiration")
 			banEdge := false
 			for _, f := range ff.FactsAt(blk) {
-				if f.Entails(CmpSpec{A: Matcher{"new score", func(t *Term) bool { return t.Op == "phi" || strings.Contains(t.String(), ".score + p2") }}, NoB: true, Rel: GE, D: mx}) {
+				if f.Entails(CmpSpec{A: isNewScore, NoB: true, Rel: GE, D: mx}) {
 					banEdge = true
 				}
 			}
@@ -226,7 +258,7 @@ func runC18(c *Ctx) {
 		// no ban below the threshold: on the edge newScore < Max no expiry store is reachable
 		for i, e := range ff.Edges {
 			f := ff.Facts[i]
-			if f.IsCmp && f.Entails(CmpSpec{A: Matcher{"new score", func(t *Term) bool { return t.Op == "phi" || strings.Contains(t.String(), ".score + p2") }}, NoB: true, Rel: LE, D: mx - 1}) {
+			if f.IsCmp && f.Entails(CmpSpec{A: isNewScore, NoB: true, Rel: LE, D: mx - 1}) {
 				w := edgeReachesInstr(e, func(in ssa.Instruction) bool {
 					if st, ok := in.(*ssa.Store); ok {
 						if fa, ok := st.Addr.(*ssa.FieldAddr); ok {
